@@ -122,11 +122,82 @@ func intrinsics() map[string]intrinsic {
 		}
 		return st.c.Const(^uint64(0), 64)
 	}
+	conc := func(st *State, v Value) []byte {
+		a := v.(Agg)
+		bs := st.seqBytes(tm(a[0]), tm(a[1]))
+		out := make([]byte, len(bs))
+		for i, b := range bs {
+			if !b.IsConst() {
+				st.end("UNSUPPORTED", "bytealg routine on symbolic bytes")
+			}
+			out[i] = byte(b.V)
+		}
+		return out
+	}
+	count := func(st *State, fn *ssa.Function, args []Value) Value {
+		c := tm(args[1])
+		if !c.IsConst() {
+			st.end("UNSUPPORTED", "bytealg.Count with symbolic byte")
+		}
+		n := 0
+		for _, b := range conc(st, args[0]) {
+			if b == byte(c.V) {
+				n++
+			}
+		}
+		return st.c.Const(uint64(n), 64)
+	}
+	m["internal/bytealg.Count"] = count
+	m["internal/bytealg.CountString"] = count
+	index := func(st *State, fn *ssa.Function, args []Value) Value {
+		return st.c.Const(uint64(int64(strings.Index(string(conc(st, args[0])), string(conc(st, args[1]))))), 64)
+	}
+	m["internal/bytealg.Index"] = index
+	m["internal/bytealg.IndexString"] = index
+	lastIndexByte := func(st *State, fn *ssa.Function, args []Value) Value {
+		c := tm(args[1])
+		if !c.IsConst() {
+			st.end("UNSUPPORTED", "bytealg.LastIndexByte with symbolic byte")
+		}
+		return st.c.Const(uint64(int64(strings.LastIndexByte(string(conc(st, args[0])), byte(c.V)))), 64)
+	}
+	m["internal/bytealg.LastIndexByte"] = lastIndexByte
+	m["internal/bytealg.LastIndexByteString"] = lastIndexByte
+	m["internal/bytealg.Compare"] = func(st *State, fn *ssa.Function, args []Value) Value {
+		return st.c.Const(uint64(int64(strings.Compare(string(conc(st, args[0])), string(conc(st, args[1]))))), 64)
+	}
+	m["internal/bytealg.Equal"] = func(st *State, fn *ssa.Function, args []Value) Value {
+		return st.strEq(Agg{args[0].(Agg)[0], args[0].(Agg)[1]}, Agg{args[1].(Agg)[0], args[1].(Agg)[1]})
+	}
 	m["internal/bytealg.IndexByte"] = indexByte
 	m["internal/bytealg.IndexByteString"] = indexByte
 	// ---- fmt / errors used only to build error values
-	m["fmt.Sprintf"] = func(st *State, fn *ssa.Function, args []Value) Value { return st.constString("<fmt>") }
-	m["fmt.Sprint"] = m["fmt.Sprintf"]
+	m["fmt.Sprintf"] = func(st *State, fn *ssa.Function, args []Value) (res Value) {
+		// concrete arguments of basic types are formatted for real (the encoder
+		// compiler builds object keys with Sprintf); anything else is opaque
+		defer func() {
+			if r := recover(); r != nil {
+				if _, isEnd := r.(*pathEnd); !isEnd {
+					panic(r)
+				}
+				res = st.constString("<fmt>")
+			}
+		}()
+		format := st.goString(args[0])
+		va := args[1].(Agg)
+		n := st.concreteInt(tm(va[1]), "variadic length")
+		var gargs []interface{}
+		for i := 0; i < n; i++ {
+			iv := st.loadT(st.addrAdd(tm(va[0]), int64(i*16)), types.NewInterfaceType(nil, nil)).(Agg)
+			gv, ok := st.goValue(iv)
+			if !ok {
+				return st.constString("<fmt>")
+			}
+			gargs = append(gargs, gv)
+		}
+		return st.constString(fmt.Sprintf(format, gargs...))
+	}
+	m["fmt.Sprint"] = func(st *State, fn *ssa.Function, args []Value) Value { return st.constString("<fmt>") }
 	m["fmt.Errorf"] = func(st *State, fn *ssa.Function, args []Value) Value { return st.opaqueError("<fmt.Errorf>") }
 	m["fmt.Fprintf"] = func(st *State, fn *ssa.Function, args []Value) Value {
 		return Agg{st.zero64, Agg{st.zero64, st.zero64}}
@@ -213,6 +284,9 @@ func intrinsics() map[string]intrinsic {
 	m[rtPkg+"rtype_ptrTo"] = func(st *State, fn *ssa.Function, args []Value) Value {
 		return st.c.Const(st.w.tokenFor(types.NewPointer(st.tokenType(args[0]))), 64)
 	}
+	m[rtPkg+"PtrTo"] = func(st *State, fn *ssa.Function, args []Value) Value {
+		return st.c.Const(st.w.tokenFor(types.NewPointer(st.tokenType(args[0]))), 64)
+	}
 	m[rtPkg+"IfaceIndir"] = func(st *State, fn *ssa.Function, args []Value) Value {
 		return st.c.Bool(!pointerShaped(st.tokenType(args[0])))
 	}
@@ -254,6 +328,41 @@ func intrinsics() map[string]intrinsic {
 			}
 			return st.c.Const(uint64(n), 64)
 		}
+	}
+	m[rtPkg+"typelinks"] = func(st *State, fn *ssa.Function, args []Value) Value {
+		// no typelink sections: AnalyzeTypeAddr gives up and every type takes the slow (map) path
+		z := Agg{st.zero64, st.zero64, st.zero64}
+		return Agg{z, z}
+	}
+	m[rtPkg+"rtype_NumField"] = func(st *State, fn *ssa.Function, args []Value) Value {
+		s, ok := st.tokenType(args[0]).Underlying().(*types.Struct)
+		if !ok {
+			st.end("PANIC", "reflect: NumField of non-struct type")
+		}
+		return st.c.Const(uint64(s.NumFields()), 64)
+	}
+	m[rtPkg+"rtype_Field"] = func(st *State, fn *ssa.Function, args []Value) Value {
+		t := st.tokenType(args[0])
+		s, ok := t.Underlying().(*types.Struct)
+		if !ok {
+			st.end("PANIC", "reflect: Field of non-struct type")
+		}
+		i := st.concreteInt(tm(args[1]), "field index")
+		if i < 0 || i >= s.NumFields() {
+			st.end("PANIC", "reflect: Field index out of bounds")
+		}
+		f := s.Field(i)
+		ti := st.tc.of(t)
+		pkgPath := ""
+		if !f.Exported() && f.Pkg() != nil {
+			pkgPath = f.Pkg().Path()
+		}
+		idx := st.alloc(8, "fieldindex")
+		st.storeWord(idx, st.c.Const(uint64(i), 64))
+		one := st.c.Const(1, 64)
+		// reflect.StructField{Name, PkgPath, Type, Tag, Offset, Index, Anonymous}
+		return Agg{st.constString(f.Name()), st.constString(pkgPath), st.reflectType(f.Type()), st.constString(s.Tag(i)),
+			st.c.Const(uint64(ti.fields[i].off), 64), Agg{idx, one, one}, st.c.Bool(f.Embedded())}
 	}
 	// ---- reflect: Type values are (itab(reflect.Type,*reflect.rtype), type token)
 	m["reflect.TypeOf"] = func(st *State, fn *ssa.Function, args []Value) Value {
@@ -501,6 +610,55 @@ func reflectKind(t types.Type) int {
 	return 0
 }
 
+// goValue converts a concrete engine interface value of a basic dynamic type
+// into a Go value (for real formatting).
+func (st *State) goValue(iv Agg) (interface{}, bool) {
+	tw := tm(iv[0])
+	if !tw.IsConst() {
+		return nil, false
+	}
+	if tw.V == 0 {
+		return nil, true
+	}
+	dyn := st.w.typeOfToken(tw.V)
+	if dyn == nil {
+		return nil, false
+	}
+	ti := st.tc.of(dyn)
+	switch ti.kind {
+	case kString:
+		v := st.unbox(iv, dyn).(Agg)
+		bs := st.seqBytes(tm(v[0]), tm(v[1]))
+		out := make([]byte, len(bs))
+		for i, b := range bs {
+			if !b.IsConst() {
+				return nil, false
+			}
+			out[i] = byte(b.V)
+		}
+		return string(out), true
+	case kInt:
+		t := tm(st.unbox(iv, dyn))
+		if !t.IsConst() {
+			return nil, false
+		}
+		if ti.signed {
+			return int64(sextU(t.V, t.W)), true
+		}
+		if b, ok := dyn.Underlying().(*types.Basic); ok && (b.Kind() == types.Uint8 || b.Kind() == types.Int32) && false {
+			return t.V, true
+		}
+		return t.V, true
+	case kBool:
+		t := tm(st.unbox(iv, dyn))
+		if !t.IsConst() {
+			return nil, false
+		}
+		return t.V != 0, true
+	}
+	return nil, false
+}
+
 // reflectType builds a reflect.Type interface value for a type token.
 func (st *State) reflectType(t types.Type) Value {
 	rp := st.w.P.Prog.ImportedPackage("reflect")
@@ -621,7 +779,8 @@ func (st *State) verifrtCall(fn *ssa.Function, args []Value) (Value, bool) {
 		st.allowPanic = true
 		return nil, true
 	case "Symbolic":
-		return c.Bool(!st.w.Opt.IsConcrete), true
+		// true whenever the harness runs inside the engine (also in concrete validation runs)
+		return c.True, true
 	case "TableFormula":
 		// TableFormula(ptr, elemSize, count, f): verified rewrite of symbolic-index
 		// loads from a constant table by the formula f. The engine checks
